@@ -290,7 +290,9 @@ fn key_name(p: &Pool, k: Key) -> String { match k { Some(i) => p.names[i].clone(
 
 /// the solutions (position of the row in `rows`) in the order produced by the query; `flip` puts
 /// the branch producing unbound keys first in each UNION (to control the unsorted sequence)
-fn run(p: &Pool, rows: &[Vec<Key>], descs: Option<&[bool]>, flip: bool) -> Result<Vec<(usize, Vec<Option<String>>)>, String> {
+fn run(p: &Pool, rows: &[Vec<Key>], descs: Option<&[bool]>, flip: bool) -> Result<Vec<(usize, Vec<Option<String>>)>, String> { run_x(p, rows, descs, flip, false) }
+/// `expr`: order by the expressions (?xk * 1) instead of the variables
+fn run_x(p: &Pool, rows: &[Vec<Key>], descs: Option<&[bool]>, flip: bool, expr: bool) -> Result<Vec<(usize, Vec<Option<String>>)>, String> {
     let nk = rows[0].len();
     let mut ds: Vec<([ST; 3], Option<ST>)> = vec![];
     for (i, r) in rows.iter().enumerate() {
@@ -315,7 +317,7 @@ fn run(p: &Pool, rows: &[Vec<Key>], descs: Option<&[bool]>, flip: bool) -> Resul
     q.push_str(" }");
     if let Some(d) = descs {
         q.push_str(" ORDER BY");
-        for (k, desc) in d.iter().enumerate() { q.push_str(&if *desc { format!(" DESC(?x{k})") } else { format!(" ?x{k}") }); }
+        for (k, desc) in d.iter().enumerate() { let e = if expr { format!("(?x{k} * 1)") } else { format!("?x{k}") }; q.push_str(&if *desc { format!(" DESC({e})") } else { format!(" {e}") }); }
     }
     let res = std::panic::catch_unwind(std::panic::AssertUnwindSafe(|| -> Result<Vec<(usize, Vec<Option<String>>)>, String> {
         let w = SparqlWrapper(&ds);
@@ -333,7 +335,13 @@ fn run(p: &Pool, rows: &[Vec<Key>], descs: Option<&[bool]>, flip: bool) -> Resul
 }
 
 /// oracle (i)-(iii) on one ordered result; returns a description of the first violation
-fn check_output(p: &Pool, rows: &[Vec<Key>], descs: &[bool], unsorted: &[(usize, Vec<Option<String>>)], sorted: &[(usize, Vec<Option<String>>)]) -> Option<String> {
+fn numeric_dt(t: &ST) -> bool {
+    const N: [&str; 16] = ["integer", "decimal", "float", "double", "long", "int", "short", "byte", "unsignedLong", "unsignedInt", "unsignedShort", "unsignedByte", "nonNegativeInteger", "positiveInteger", "nonPositiveInteger", "negativeInteger"];
+    match t { SimpleTerm::LiteralDatatype(_, dt) => dt.as_str().strip_prefix(XSD).map_or(false, |l| N.contains(&l)), _ => false }
+}
+fn check_output(p: &Pool, rows: &[Vec<Key>], descs: &[bool], unsorted: &[(usize, Vec<Option<String>>)], sorted: &[(usize, Vec<Option<String>>)]) -> Option<String> { check_output_x(p, rows, descs, unsorted, sorted, false) }
+/// `expr`: the keys are (?xk * 1): a key that is certainly not a number is an error, hence unbound
+fn check_output_x(p: &Pool, rows: &[Vec<Key>], descs: &[bool], unsorted: &[(usize, Vec<Option<String>>)], sorted: &[(usize, Vec<Option<String>>)], expr: bool) -> Option<String> {
     let mut a: Vec<_> = unsorted.to_vec(); let mut b: Vec<_> = sorted.to_vec(); a.sort(); b.sort();
     let mut seen: Vec<usize> = a.iter().map(|r| r.0).collect(); seen.dedup();
     if a != b || seen.len() != rows.len() { return Some(format!("(i) the ordered result is not a permutation of the {} unordered solutions: unordered {:?}, ordered {:?}", rows.len(), unsorted, sorted)); }
@@ -344,6 +352,21 @@ fn check_output(p: &Pool, rows: &[Vec<Key>], descs: &[bool], unsorted: &[(usize,
                 if e[k] == l[k] { continue; }
                 let (te, tl) = (e[k].map(|i| &p.terms[i]), l[k].map(|i| &p.terms[i]));
                 let (re, rl) = (rank_of(te), rank_of(tl));
+                if expr {
+                    // 0: certainly an error (unbound key), 1: a valid XSD number, 2: no opinion
+                    let cls = |k: Key| match k { None => 0, Some(i) => if !numeric_dt(&p.terms[i]) { 0 } else if matches!(p.ov[i], OV::Dec(_) | OV::Dbl(_) | OV::Flt(_)) { 1 } else { 2 } };
+                    let exp = match (cls(e[k]), cls(l[k])) {
+                        (0, 0) => continue,
+                        (0, 1) => Some(Ordering::Less), (1, 0) => Some(Ordering::Greater),
+                        (1, 1) => oracle_cmp_values(&p.ov[e[k].unwrap()], &p.ov[l[k].unwrap()]).filter(|o| *o != Ordering::Equal),
+                        _ => None,
+                    }.map(|o| if descs[k] { o.reverse() } else { o });
+                    if exp == Some(Ordering::Greater) {
+                        return Some(format!("(ii)/(iii) on the expression key ({} * 1) {}: {} is output (position {i}) before {} (position {j}) although it must come after it; whole output on that key: [{}]",
+                            "?x", if descs[k] { "DESC" } else { "ASC" }, key_name(p, e[k]), key_name(p, l[k]), sorted.iter().map(|r| key_name(p, rows[r.0][k])).collect::<Vec<_>>().join(", ")));
+                    }
+                    break;
+                }
                 let (exp, why) = if re != rl { (Some(Ord::cmp(&re, &rl)), "(iii) kind rank") }
                     else if re == 3 { (oracle_cmp_values(&p.ov[e[k].unwrap()], &p.ov[l[k].unwrap()]).filter(|o| *o != Ordering::Equal), "(ii) operator '<'") }
                     else { (None, "") };
@@ -508,23 +531,24 @@ additionally every run sorts all 2-element multisets of the pool and checks the 
                 Err(e) => { desc_txt = e.clone(); failure = Some(e); body = None; }
             }
         } else {
+            let expr = kind == 17 || kind == 18;
             let n = if kind == 19 { r.range(24, 60) } else { r.range(2, 8) };
-            let nk = if kind == 19 { 1 } else { r.range(1, 2) };
+            let nk = if kind == 19 || expr { 1 } else { r.range(1, 2) };
             let descs: Vec<bool> = (0..nk).map(|_| r.chance(1, 3)).collect();
             // with two keys, the first one is drawn from few values so that ties happen
             let few: Vec<Key> = (0..3).map(|_| draw(&mut r, &focus)).collect();
             let rows: Vec<Vec<Key>> = (0..n).map(|_| (0..nk).map(|k| if nk == 2 && k == 0 { *r.pick(&few) } else { draw(&mut r, &focus) }).collect()).collect();
             let flip = r.chance(1, 2);
-            text = format!("rows [{}] order {}{}", rows.iter().map(|row| row.iter().map(|k| key_name(&pool, *k)).collect::<Vec<_>>().join(" & ")).collect::<Vec<_>>().join("; "),
-                descs.iter().map(|d| if *d { "DESC" } else { "ASC" }).collect::<Vec<_>>().join(","), if flip { " (unbound first in input)" } else { "" });
+            text = format!("rows [{}] order {}{}{}", rows.iter().map(|row| row.iter().map(|k| key_name(&pool, *k)).collect::<Vec<_>>().join(" & ")).collect::<Vec<_>>().join("; "),
+                descs.iter().map(|d| if *d { "DESC" } else { "ASC" }).collect::<Vec<_>>().join(","), if flip { " (unbound first in input)" } else { "" }, if expr { " by the expression (?x0 * 1)" } else { "" });
             keys_flat = rows.iter().flatten().copied().collect();
-            match (run(&pool, &rows, None, flip), run(&pool, &rows, Some(&descs), flip)) {
+            match (run(&pool, &rows, None, flip), run_x(&pool, &rows, Some(&descs), flip, expr)) {
                 (Ok(u), Ok(s)) => {
-                    failure = check_output(&pool, &rows, &descs, &u, &s);
+                    failure = check_output_x(&pool, &rows, &descs, &u, &s, expr);
                     desc_txt = format!("output order (row numbers) {:?}", s.iter().map(|x| x.0).collect::<Vec<_>>());
-                    body = Some(format!("rows_ok {} {} {}", coq_list(descs.iter().map(|d| coq_bool(*d).to_string())),
+                    body = Some(format!("{} {} {} {}", if expr { "expr_rows_ok" } else { "rows_ok" }, coq_list(descs.iter().map(|d| coq_bool(*d).to_string())),
                         coq_list(rows.iter().map(|row| coq_list(row.iter().map(|k| coq_key(*k))))), coq_list(s.iter().map(|x| x.0.to_string()))));
-                    sum.bump(&format!("rows:{}key{}", nk, if n > 8 { ":large" } else { "" }));
+                    sum.bump(&format!("rows:{}key{}{}", nk, if n > 8 { ":large" } else { "" }, if expr { ":expression" } else { "" }));
                 }
                 (Err(e), _) | (_, Err(e)) => { desc_txt = e.clone(); failure = Some(if e.starts_with("PANIC") { format!("sorting panicked: {e}") } else { e }); body = None; }
             }
